@@ -841,4 +841,567 @@ theorem chunked_complete (cs : List ChunkS) (hwf : ∀ c ∈ cs, c.WF L) (last :
   rw [h]
   exact complete_run maxBuf hmb last hl trail ns _ _ (rep_fresh cs hwf _)
 
+/-! ## Truncated streams: the primitives -/
+
+/-- the stream ends, errors (not `Interrupted`) or stalls here -/
+def Dead (tail : List Item) : Prop :=
+  tail = [] ∨ (∃ k r, k ≠ 0 ∧ tail = .err k :: r) ∨ (∃ r, tail = .pause :: r)
+
+/-- an error or a stall: neither a value nor a panic -/
+def RR.Bad (x : RR α) : Prop := (∃ e, x = .err e) ∨ x = .blocked
+
+theorem RR.Bad.map {f : α → β} {x : RR α} (h : x.Bad) : (x.map f).Bad := by
+  rcases h with ⟨e, rfl⟩ | rfl
+  · exact .inl ⟨e, rfl⟩
+  · exact .inr rfl
+
+theorem RR.Bad.ne_ok {x : RR α} (h : x.Bad) (v : α) : x ≠ .ok v := by
+  rcases h with ⟨e, rfl⟩ | rfl <;> simp
+
+theorem specExact_dead_succ (tail : List Item) (hd : Dead tail) (n : Nat) :
+    (specExact (n + 1) tail).1.Bad := by
+  rcases hd with rfl | ⟨k, r, hk, rfl⟩ | ⟨r, rfl⟩
+  · exact .inl ⟨.eof, by simp [specExact]⟩
+  · exact .inl ⟨.io k, by simp [specExact, hk]⟩
+  · exact .inr (by simp [specExact])
+
+theorem specExact_dead (tail : List Item) (hd : Dead tail) (q : Bytes) (n : Nat)
+    (h : q.length < n) : (specExact n (bytesI q ++ tail)).1.Bad := by
+  have := specExact_bytes q n tail (by omega)
+  rw [bytesI, this]
+  obtain ⟨k, hk⟩ : ∃ k, n - q.length = k + 1 := ⟨n - q.length - 1, by omega⟩
+  rw [hk]
+  exact (specExact_dead_succ tail hd k).map
+
+theorem specUntil_dead (tail : List Item) (hd : Dead tail) (q : Bytes) (h10 : (10 : UInt8) ∉ q) :
+    ∀ (l : Nat) (acc : Bytes), q.length < l →
+      (∃ l', specUntil l (bytesI q ++ tail) acc = (.ok (acc ++ q, l'), [])) ∨
+      (specUntil l (bytesI q ++ tail) acc).1.Bad := by
+  induction q with
+  | nil =>
+    intro l acc hl
+    obtain ⟨l', rfl⟩ : ∃ l', l = l' + 1 := ⟨l - 1, by simp at hl; omega⟩
+    rcases hd with rfl | ⟨k, r, hk, rfl⟩ | ⟨r, rfl⟩
+    · exact .inl ⟨l' + 1, by simp [bytesI, specUntil]⟩
+    · exact .inr (.inl ⟨.io k, by simp [bytesI, specUntil, hk]⟩)
+    · exact .inr (.inr (by simp [bytesI, specUntil]))
+  | cons b q ih =>
+    intro l acc hl
+    obtain ⟨l', rfl⟩ : ∃ l', l = l' + 1 := ⟨l - 1, by simp at hl; omega⟩
+    have hb : b ≠ 10 := fun h => h10 (by simp [h])
+    have := ih (fun h => h10 (by simp [h])) l' (acc ++ [b]) (by simpa using hl)
+    simp only [bytesI_cons, List.cons_append, specUntil, hb, if_false]
+    simpa using this
+
+theorem stripEol_none (q : Bytes) (h10 : (10 : UInt8) ∉ q) : stripEol q = none := by
+  unfold stripEol
+  split
+  · rename_i r heq
+    exact absurd (List.mem_reverse.mp (by rw [heq]; simp)) h10
+  · rename_i r _ heq
+    exact absurd (List.mem_reverse.mp (by rw [heq]; simp)) h10
+  · rfl
+
+theorem readLine_dead (tail : List Item) (hd : Dead tail) (q : Bytes) (h10 : (10 : UInt8) ∉ q)
+    (lim : Nat) (hl : q.length < lim) : (readLine flatSrc (bytesI q ++ tail) lim).1.Bad := by
+  unfold readLine
+  simp only [flatSrc]
+  rcases specUntil_dead tail hd q h10 lim [] hl with ⟨l', h⟩ | h
+  · rw [h]
+    simp only [List.nil_append, stripEol_none q h10]
+    exact .inl ⟨_, rfl⟩
+  · rcases hsu : specUntil lim (bytesI q ++ tail) [] with ⟨res, r'⟩
+    rw [hsu] at h
+    rcases h with ⟨e, rfl⟩ | rfl
+    · exact .inl ⟨e, rfl⟩
+    · exact .inr rfl
+
+theorem readLineEnding_dead (tail : List Item) (hd : Dead tail) (q : Bytes)
+    (hq : q = [] ∨ q = [13]) : (readLineEnding flatSrc (bytesI q ++ tail)).1.Bad := by
+  have h1 := specExact_dead_succ tail hd 0
+  rcases hsp : specExact 1 tail with ⟨res, r'⟩
+  rw [hsp] at h1
+  rcases hq with rfl | rfl
+  · simp only [readLineEnding, flatSrc, bytesI_nil, List.nil_append, hsp]
+    rcases h1 with ⟨e, rfl⟩ | rfl
+    · exact .inl ⟨e, rfl⟩
+    · exact .inr rfl
+  · have : specExact 1 (bytesI [13] ++ tail) = (.ok [13], tail) := by simp [bytesI, specExact]
+    simp only [readLineEnding, flatSrc, this, if_true, hsp]
+    rcases h1 with ⟨e, rfl⟩ | rfl
+    · exact .inl ⟨e, rfl⟩
+    · exact .inr rfl
+
+theorem prefix_drop {α : Type} {q x : List α} (h : q <+: x) (k : Nat) : q.drop k <+: x.drop k := by
+  obtain ⟨t, rfl⟩ := h
+  rw [List.drop_append]
+  exact List.prefix_append _ _
+
+theorem prefix_take_eq {α : Type} {q x : List α} (h : q <+: x) (k : Nat) (hk : k ≤ q.length) :
+    q.take k = x.take k := by
+  obtain ⟨t, rfl⟩ := h
+  rw [List.take_append, Nat.sub_eq_zero_of_le hk]
+  simp
+
+theorem prefix_crlf_short (p : Bytes) (h : p <+: [13, 10]) (hl : p.length < 2) :
+    p = [] ∨ p = [13] := by
+  match p, h, hl with
+  | [], _, _ => exact .inl rfl
+  | [x], h, _ =>
+    obtain ⟨t, ht⟩ := h
+    simp at ht
+    exact .inr (by rw [ht.1])
+
+/-- the data part of a refill when the stream is cut inside `R ++ CRLF` -/
+theorem refillData_trunc (tail : List Item) (hd : Dead tail) (c1 : Chunked (List Item))
+    (R q : Bytes) (m : Nat) (hr : c1.remaining = R.length) (hi : c1.inner = bytesI q ++ tail)
+    (hq : q <+: R ++ [13, 10]) (hql : q.length < R.length + 2) :
+    (Chunked.refillData flatSrc c1 m).1.Bad ∨
+    (min R.length m < R.length ∧ min R.length m ≤ q.length ∧
+      Chunked.refillData flatSrc c1 m =
+        (.ok (), { c1 with inner := bytesI (q.drop (min R.length m)) ++ tail,
+                           buffer := R.take (min R.length m), consumed := 0,
+                           remaining := R.length - min R.length m })) := by
+  have hkR : min R.length m ≤ R.length := Nat.min_le_left _ _
+  by_cases hk : min R.length m ≤ q.length
+  · have hqt : q.take (min R.length m) = R.take (min R.length m) := by
+      rw [prefix_take_eq hq _ hk, List.take_append, Nat.sub_eq_zero_of_le hkR]; simp
+    have hspec : flatSrc.readExact c1.inner (min c1.remaining m) =
+        (.ok (R.take (min R.length m)), bytesI (q.drop (min R.length m)) ++ tail) := by
+      rw [hi, hr, ← hqt]
+      exact specExact_take q _ tail hk
+    have h1 : ¬ R.length < min R.length m := by omega
+    unfold Chunked.refillData
+    rw [hspec]
+    simp only [hr, List.length_take, Nat.min_eq_left hkR, h1, if_false]
+    by_cases h0 : R.length - min R.length m = 0
+    · left
+      have hp : q.drop (min R.length m) <+: [13, 10] := by
+        have := prefix_drop hq (min R.length m)
+        rwa [List.drop_append_of_le_length hkR, List.drop_eq_nil_of_le (as := R) (by omega),
+          List.nil_append] at this
+      have hbad := readLineEnding_dead tail hd _
+        (prefix_crlf_short _ hp (by rw [List.length_drop]; omega))
+      simp only [h0, if_true]
+      rcases hle : readLineEnding flatSrc (bytesI (q.drop (min R.length m)) ++ tail) with ⟨res, r''⟩
+      rw [hle] at hbad
+      rcases hbad with ⟨e, rfl⟩ | rfl
+      · exact .inl ⟨e, rfl⟩
+      · exact .inr rfl
+    · right
+      exact ⟨by omega, hk, by simp only [h0, if_false]⟩
+  · left
+    have hbad : (flatSrc.readExact c1.inner (min c1.remaining m)).1.Bad := by
+      rw [hi, hr]; exact specExact_dead tail hd q _ (by omega)
+    unfold Chunked.refillData
+    rcases hsp : flatSrc.readExact c1.inner (min c1.remaining m) with ⟨res, r'⟩
+    rw [hsp] at hbad
+    rcases hbad with ⟨e, rfl⟩ | rfl
+    · exact .inl ⟨e, rfl⟩
+    · exact .inr rfl
+
+/-- a refill at a chunk boundary when the stream is cut inside the chunk (or the last-chunk) -/
+theorem refill_trunc (tail : List Item) (hd : Dead tail) (c : Chunked (List Item))
+    (sr ext R q : Bytes) (m : Nat) (hs : SizeOK sr ext R.length) (hr : c.remaining = 0)
+    (hi : c.inner = bytesI q ++ tail)
+    (hq : q <+: sr ++ ext ++ [13, 10] ++ R ++ [13, 10])
+    (hql : q.length < sr.length + ext.length + R.length + 4) :
+    (Chunked.refill flatSrc c m).1.Bad ∨
+    ∃ q2, min R.length m < R.length ∧ min R.length m ≤ q2.length ∧ q2 <+: R ++ [13, 10] ∧
+      q2.length < R.length + 2 ∧
+      Chunked.refill flatSrc c m =
+        (.ok (), { c with inner := bytesI (q2.drop (min R.length m)) ++ tail,
+                          buffer := R.take (min R.length m), consumed := 0,
+                          remaining := R.length - min R.length m,
+                          reachedEof := c.reachedEof || R.length == 0 }) := by
+  by_cases hlt : q.length < sr.length + ext.length + 2
+  · left
+    have hpre : sr ++ ext ++ [13] <+: sr ++ ext ++ [13, 10] ++ R ++ [13, 10] :=
+      ⟨[10] ++ R ++ [13, 10], by simp⟩
+    have hq' : q <+: sr ++ ext ++ [13] :=
+      List.prefix_of_prefix_length_le hq hpre (by simp; omega)
+    have h10 : (10 : UInt8) ∉ q := by
+      intro hm
+      have := hq'.mem hm
+      rcases List.mem_append.mp this with h | h
+      · exact hs.line_nolf h
+      · simp at h
+    have hbad := readLine_dead tail hd q h10 L (by have := hs.len; omega)
+    have hbad2 : (c.readChunkSize flatSrc).1.Bad := by
+      unfold Chunked.readChunkSize
+      rw [hi]
+      rcases hrl : readLine flatSrc (bytesI q ++ tail) L with ⟨res, r'⟩
+      rw [hrl] at hbad
+      rcases hbad with ⟨e, rfl⟩ | rfl
+      · exact .inl ⟨e, rfl⟩
+      · exact .inr rfl
+    unfold Chunked.refill
+    simp only [hr, if_true]
+    rcases hrc : c.readChunkSize flatSrc with ⟨res, c'⟩
+    rw [hrc] at hbad2
+    rcases hbad2 with ⟨e, rfl⟩ | rfl
+    · exact .inl ⟨e, rfl⟩
+    · exact .inr rfl
+  · have hpre : sr ++ ext ++ [13, 10] <+: sr ++ ext ++ [13, 10] ++ R ++ [13, 10] :=
+      ⟨R ++ [13, 10], by simp⟩
+    obtain ⟨q2, rfl⟩ : sr ++ ext ++ [13, 10] <+: q :=
+      List.prefix_of_prefix_length_le hpre hq (by simp; omega)
+    have hq2 : q2 <+: R ++ [13, 10] := by
+      rw [show sr ++ ext ++ [13, 10] ++ R ++ [13, 10] = (sr ++ ext ++ [13, 10]) ++ (R ++ [13, 10]) by
+        simp] at hq
+      exact (List.prefix_append_right_inj _).mp hq
+    have hq2l : q2.length < R.length + 2 := by
+      simp only [List.length_append, List.length_cons, List.length_nil] at hql; omega
+    have hi' : c.inner = bytesI (sr ++ ext ++ [13, 10]) ++ (bytesI q2 ++ tail) := by
+      rw [hi, bytesI_append, List.append_assoc]
+    have hrf : Chunked.refill flatSrc c m =
+        Chunked.refillData flatSrc
+          { c with inner := bytesI q2 ++ tail, buffer := sr ++ ext, remaining := R.length,
+                   reachedEof := c.reachedEof || R.length == 0 } m := by
+      unfold Chunked.refill
+      simp only [hr, if_true, readChunkSize_ok c sr ext R.length _ hs hi']
+    rw [hrf]
+    rcases refillData_trunc tail hd
+      { c with inner := bytesI q2 ++ tail, buffer := sr ++ ext, remaining := R.length,
+               reachedEof := c.reachedEof || R.length == 0 } R q2 m rfl rfl hq2 hq2l with h | ⟨h1, h2, h3⟩
+    · exact .inl h
+    · exact .inr ⟨q2, h1, h2, hq2, hq2l, h3⟩
+
+/-! ## Truncated streams: the decoder -/
+
+theorem fillBuf_refill_bad (S : Src σ) (c : Chunked σ) (m : Nat) (hf : c.failed = false)
+    (h : c.buffer.length = c.consumed ∧ ¬ (c.remaining = 0 ∧ c.reachedEof))
+    (hb : (c.refill S m).1.Bad) :
+    (c.fillBuf S m).1.Bad ∧ (c.fillBuf S m).2.failed = true := by
+  rw [fillBuf_refill _ _ _ hf h]
+  rcases hrf : c.refill S m with ⟨res, c'⟩
+  rw [hrf] at hb
+  rcases hb with ⟨e, rfl⟩ | rfl
+  · exact ⟨.inl ⟨e, rfl⟩, rfl⟩
+  · exact ⟨.inr rfl, rfl⟩
+
+theorem read_of_fillBuf_bad (S : Src σ) (c : Chunked σ) (m n : Nat)
+    (hb : (c.fillBuf S m).1.Bad) :
+    (c.read S m n).1.Bad ∧ (c.read S m n).2 = (c.fillBuf S m).2 := by
+  unfold Chunked.read
+  rcases hfb : c.fillBuf S m with ⟨res, c'⟩
+  rw [hfb] at hb
+  rcases hb with ⟨e, rfl⟩ | rfl
+  · exact ⟨.inl ⟨e, rfl⟩, rfl⟩
+  · exact ⟨.inr rfl, rfl⟩
+
+/-- after a successful `fill_buf` with a non-empty slice -/
+theorem read_after_fill (S : Src σ) (c c' : Chunked σ) (m n : Nat)
+    (hfb : c.fillBuf S m = (.ok (avail c'), c')) (hne : avail c' ≠ []) :
+    (c.read S m n).1 = .ok ((avail c').take n) ∧ ((avail c').take n).length ≤ n ∧
+    (0 < n → (avail c').take n ≠ []) ∧
+    (c.read S m n).2 = c'.consume ((avail c').take n).length ∧
+    avail (c.read S m n).2 = (avail c').drop n := by
+  rw [read_of_fillBuf _ _ _ _ n _ hfb]
+  refine ⟨rfl, ?_, ?_, rfl, ?_⟩
+  · simp only [List.length_take]; omega
+  · intro hn h
+    have := congrArg List.length h
+    have hp := List.length_pos_iff.mpr hne
+    simp only [List.length_take, List.length_nil] at this
+    omega
+  · simp only [avail_consume, List.length_take]
+    by_cases h : n ≤ (avail c').length
+    · rw [Nat.min_eq_left h]
+    · rw [Nat.min_eq_right (by omega), List.drop_eq_nil_of_le (Nat.le_refl _),
+        List.drop_eq_nil_of_le (by omega)]
+
+/-- The back end is in step with a stream that is cut (`tail` is `Dead`) inside the chunk being
+    read or inside the chunk / last-chunk that starts here; `R` is the data of that chunk that has
+    not been buffered yet (an upper bound of what can still come). -/
+def TGood (tail : List Item) (c : Chunked (List Item)) (R : Bytes) : Prop :=
+  c.failed = false ∧ c.reachedEof = false ∧
+  ((∃ q, R ≠ [] ∧ c.remaining = R.length ∧ c.inner = bytesI q ++ tail ∧
+      q <+: R ++ [13, 10] ∧ q.length < R.length + 2) ∨
+   (∃ sr ext q, SizeOK sr ext R.length ∧ c.remaining = 0 ∧ c.inner = bytesI q ++ tail ∧
+      q <+: sr ++ ext ++ [13, 10] ++ R ++ [13, 10] ∧
+      q.length < sr.length + ext.length + R.length + 4))
+
+def TRep (tail : List Item) (c : Chunked (List Item)) (P : Bytes) : Prop :=
+  c.consumed ≤ c.buffer.length ∧ ∃ R, TGood tail c R ∧ P = avail c ++ R
+
+theorem tgood_after (tail : List Item) (c' : Chunked (List Item)) (R q : Bytes) (k : Nat)
+    (hf : c'.failed = false) (he : c'.reachedEof = false) (hk : k < R.length) (hkq : k ≤ q.length)
+    (hq : q <+: R ++ [13, 10]) (hql : q.length < R.length + 2)
+    (hr : c'.remaining = R.length - k) (hi : c'.inner = bytesI (q.drop k) ++ tail) :
+    TGood tail c' (R.drop k) := by
+  refine ⟨hf, he, .inl ⟨q.drop k, ?_, by simp [hr], hi, ?_, ?_⟩⟩
+  · intro h
+    have := congrArg List.length h
+    simp at this; omega
+  · have := prefix_drop hq k
+    rwa [List.drop_append_of_le_length (by omega)] at this
+  · simp only [List.length_drop]; omega
+
+theorem fillBuf_tgood (tail : List Item) (hd : Dead tail) (c : Chunked (List Item)) (R : Bytes)
+    (m : Nat) (hm : 0 < m) (hc : c.consumed ≤ c.buffer.length) (hg : TGood tail c R) :
+    (∃ c' R', c.fillBuf flatSrc m = (.ok (avail c'), c') ∧ avail c' ≠ [] ∧
+      c'.consumed ≤ c'.buffer.length ∧ TGood tail c' R' ∧ avail c ++ R = avail c' ++ R') ∨
+    ((c.fillBuf flatSrc m).1.Bad ∧ (c.fillBuf flatSrc m).2.failed = true) := by
+  obtain ⟨hf, he, hcase⟩ := hg
+  by_cases hav : avail c = []
+  · have hlen := (avail_eq_nil_iff c hc).mp hav
+    have hcond : c.buffer.length = c.consumed ∧ ¬ (c.remaining = 0 ∧ c.reachedEof) := by
+      simp [hlen, he]
+    rcases hcase with ⟨q, hRne, hr, hi, hq, hql⟩ | ⟨sr, ext, q, hs, hr, hi, hq, hql⟩
+    · have hrem : ¬ c.remaining = 0 := by
+        have := List.length_pos_iff.mpr hRne; omega
+      have hrf : c.refill flatSrc m = Chunked.refillData flatSrc c m := by
+        simp [Chunked.refill, hrem]
+      rcases refillData_trunc tail hd c R q m hr hi hq hql with hb | ⟨h1, h2, h3⟩
+      · exact .inr (fillBuf_refill_bad _ _ _ hf hcond (by rw [hrf]; exact hb))
+      · rw [← hrf] at h3
+        refine .inl ⟨_, R.drop (min R.length m),
+          fillBuf_refill_ok _ _ _ m hf hcond h3 (by simp), ?_, by simp, ?_, ?_⟩
+        · simpa [avail] using take_min_ne_nil R m hRne hm
+        · exact tgood_after tail _ R q _ hf he h1 h2 hq hql rfl rfl
+        · rw [hav]; simp [avail]
+    · rcases refill_trunc tail hd c sr ext R q m hs hr hi hq hql with hb | ⟨q2, h1, h2, hq2, hq2l, h3⟩
+      · exact .inr (fillBuf_refill_bad _ _ _ hf hcond hb)
+      · have hRne : R ≠ [] := by
+          intro h; subst h; simp at h1
+        refine .inl ⟨_, R.drop (min R.length m),
+          fillBuf_refill_ok _ _ _ m hf hcond h3 (by simp), ?_, by simp, ?_, ?_⟩
+        · simpa [avail] using take_min_ne_nil R m hRne hm
+        · refine tgood_after tail _ R q2 _ hf ?_ h1 h2 hq2 hq2l rfl rfl
+          have : R.length ≠ 0 := by omega
+          simp [he, this]
+        · rw [hav]; simp [avail]
+  · have hlt : ¬ c.buffer.length = c.consumed := fun h => hav ((avail_eq_nil_iff c hc).mpr h)
+    refine .inl ⟨c, R, ?_, hav, hc, ⟨hf, he, hcase⟩, rfl⟩
+    rw [fillBuf_noRefill _ _ _ hf (by simp [hlt]) hc]; rfl
+
+/-- one `read` on a cut stream: a non-empty piece of genuine data, or a latched failure -/
+theorem step_trunc (tail : List Item) (hd : Dead tail) (c : Chunked (List Item)) (P : Bytes)
+    (m n : Nat) (hm : 0 < m) (hrep : TRep tail c P) :
+    (∃ out P', (c.read flatSrc m n).1 = .ok out ∧ P = out ++ P' ∧ (0 < n → out ≠ []) ∧
+      TRep tail (c.read flatSrc m n).2 P') ∨
+    ((c.read flatSrc m n).1.Bad ∧ (c.read flatSrc m n).2.failed = true) := by
+  obtain ⟨hc, R, hg, rfl⟩ := hrep
+  rcases fillBuf_tgood tail hd c R m hm hc hg with ⟨c', R', hfb, hne, hc', hg', heq⟩ | ⟨hb, hfl⟩
+  · obtain ⟨h1, _, h3, h4, h5⟩ := read_after_fill _ c c' m n hfb hne
+    refine .inl ⟨(avail c').take n, (avail c').drop n ++ R', h1, ?_, h3, ?_, R', ?_, ?_⟩
+    · rw [heq, ← List.append_assoc, List.take_append_drop]
+    · rw [h4]; exact consume_inv _ _
+    · rw [h4]; exact hg'
+    · rw [h5]
+  · obtain ⟨h1, h2⟩ := read_of_fillBuf_bad _ c m n hb
+    exact .inr ⟨h1, by rw [h2]; exact hfl⟩
+
+theorem failed_run (S : Src σ) (m : Nat) (ns : List Nat) :
+    ∀ c : Chunked σ, c.failed = true → ∀ e ∈ (readsC S m ns c).1, e = .err .chunk := by
+  induction ns with
+  | nil => intro c _ e he; simp [readsC] at he
+  | cons n ns ih =>
+    intro c hf e he
+    have hrd : c.read S m n = (.err .chunk, c) :=
+      read_of_fillBuf_err _ _ _ _ _ _ (fillBuf_failed S c m hf)
+    rw [readsC_cons, hrd] at he
+    rcases List.mem_cons.mp he with rfl | he
+    · rfl
+    · exact ih c hf e he
+
+/-! ### the observable properties of a run on a cut stream -/
+
+/-- once an event is not `Ok`, no later event is -/
+def Latched (evs : List (RR Bytes)) : Prop :=
+  ∀ i j, i ≤ j → j < evs.length → (∀ bs, evs[i]? ≠ some (.ok bs)) → (∀ bs, evs[j]? ≠ some (.ok bs))
+
+theorem Latched.cons_ok (out : Bytes) (evs : List (RR Bytes)) (h : Latched evs) :
+    Latched (.ok out :: evs) := by
+  intro i j hij hj hi
+  cases i with
+  | zero => exact absurd rfl (hi out)
+  | succ i =>
+    cases j with
+    | zero => omega
+    | succ j =>
+      simp only [List.getElem?_cons_succ] at hi ⊢
+      exact h i j (by omega) (by simpa using hj) hi
+
+theorem Latched.of_noOk (e : RR Bytes) (evs : List (RR Bytes))
+    (h : ∀ x ∈ evs, ∀ bs, x ≠ .ok bs) : Latched (e :: evs) := by
+  intro i j hij hj hi
+  cases j with
+  | zero =>
+    have : i = 0 := by omega
+    subst this; exact hi
+  | succ j =>
+    intro bs hbs
+    simp only [List.getElem?_cons_succ] at hbs
+    exact h _ (List.mem_of_getElem? hbs) bs rfl
+
+/-- never a clean end, nothing fabricated, failure latched -/
+def TruncOutcome (ns : List Nat) (evs : List (RR Bytes)) (P : Bytes) : Prop :=
+  (∀ i (hi : i < ns.length), 0 < ns[i] → evs[i]? ≠ some (.ok [])) ∧
+  delivered evs <+: P ∧ Latched evs
+
+theorem TruncOutcome.cons_ok (n : Nat) (ns : List Nat) (out P' : Bytes) (evs : List (RR Bytes))
+    (hne : 0 < n → out ≠ []) (h : TruncOutcome ns evs P') :
+    TruncOutcome (n :: ns) (.ok out :: evs) (out ++ P') := by
+  obtain ⟨h1, h2, h3⟩ := h
+  refine ⟨?_, ?_, h3.cons_ok out⟩
+  · intro i hi hn
+    cases i with
+    | zero =>
+      simp only [List.getElem_cons_zero] at hn
+      simpa using hne hn
+    | succ i =>
+      simp only [List.getElem_cons_succ] at hn
+      simp only [List.getElem?_cons_succ]
+      exact h1 i (by simpa using hi) hn
+  · simpa [delivered_ok_cons, List.prefix_append_right_inj] using h2
+
+theorem TruncOutcome.of_failed (n : Nat) (ns : List Nat) (e : RR Bytes) (evs : List (RR Bytes))
+    (P : Bytes) (he : e.Bad) (h : ∀ x ∈ evs, x = .err .chunk) :
+    TruncOutcome (n :: ns) (e :: evs) P := by
+  have hd : ∀ es : List (RR Bytes), (∀ x ∈ es, x = .err .chunk) → delivered es = [] := by
+    intro es
+    induction es with
+    | nil => intro _; rfl
+    | cons x es ih =>
+      intro hx
+      rw [hx x (by simp)]
+      simp [delivered, ih (fun y hy => hx y (by simp [hy]))]
+  refine ⟨?_, ?_, Latched.of_noOk e evs (fun x hx bs => by rw [h x hx]; simp)⟩
+  · intro i hi hn
+    cases i with
+    | zero =>
+      simp only [List.getElem?_cons_zero, ne_eq, Option.some.injEq]
+      exact he.ne_ok []
+    | succ i =>
+      simp only [List.getElem?_cons_succ]
+      intro hev
+      have := h _ (List.mem_of_getElem? hev)
+      simp at this
+  · have : delivered (e :: evs) = [] := by
+      rcases he with ⟨e', rfl⟩ | rfl <;> simp [delivered, hd evs h]
+    rw [this]; exact List.nil_prefix
+
+theorem trunc_run (tail : List Item) (hd : Dead tail) (m : Nat) (hm : 0 < m) (ns : List Nat) :
+    ∀ (c : Chunked (List Item)) (P : Bytes), TRep tail c P →
+      TruncOutcome ns (readsC flatSrc m ns c).1 P := by
+  induction ns with
+  | nil => intro c P _; exact ⟨fun i hi => by simp at hi, by simp [readsC, delivered],
+      fun i j _ hj => by simp [readsC] at hj⟩
+  | cons n ns ih =>
+    intro c P hrep
+    rw [readsC_cons]
+    rcases step_trunc tail hd c P m n hm hrep with ⟨out, P', h1, rfl, hne, hrep'⟩ | ⟨hb, hfl⟩
+    · rw [h1]
+      exact TruncOutcome.cons_ok n ns out P' _ hne (ih _ P' hrep')
+    · exact TruncOutcome.of_failed n ns _ _ P hb (failed_run _ m ns _ hfl)
+
+/-- complete chunks first, then a cut inside a chunk or the last-chunk whose data is `d` -/
+theorem truncated_run (tail : List Item) (hd : Dead tail) (m : Nat) (hm : 0 < m)
+    (sr ext d part : Bytes) (hs : SizeOK sr ext d.length)
+    (hq : part <+: sr ++ ext ++ [13, 10] ++ d ++ [13, 10])
+    (hql : part.length < sr.length + ext.length + d.length + 4) (ns : List Nat) :
+    ∀ (c : Chunked (List Item)) (P : Bytes), Rep c P (bytesI part ++ tail) →
+      TruncOutcome ns (readsC flatSrc m ns c).1 (P ++ d) := by
+  induction ns with
+  | nil => intro c P _; exact ⟨fun i hi => by simp at hi, by simp [readsC, delivered],
+      fun i j _ hj => by simp [readsC] at hj⟩
+  | cons n ns ih =>
+    intro c P hrep
+    by_cases hP : P = []
+    · subst hP
+      obtain ⟨hf, he, hlen, hr, hi⟩ := rep_nil c _ hrep
+      have ht : TRep tail c ([] ++ d) :=
+        ⟨hrep.1, d, ⟨hf, he, .inr ⟨sr, ext, part, hs, hr, hi, hq, hql⟩⟩, by
+          rw [(avail_eq_nil_iff c hrep.1).mpr hlen]⟩
+      exact trunc_run tail hd m hm (n :: ns) c _ ht
+    · obtain ⟨out, P', h1, rfl, _, hne, hrep'⟩ := step_progress c P _ m n hm hrep hP
+      rw [readsC_cons, h1, List.append_assoc]
+      exact TruncOutcome.cons_ok n ns out (P' ++ d) _ hne (ih _ P' hrep')
+
+/-! ## Theorem (C) -/
+
+/-- (C) in the common form used for both a cut chunk and a cut last-chunk. -/
+theorem chunked_truncated_gen (cs : List ChunkS) (hwf : ∀ c ∈ cs, c.WF L) (part : Bytes)
+    (tailItems : List Item) (maxBuf : Nat) (hmb : 0 < maxBuf) (ns : List Nat)
+    (sr ext d : Bytes) (hs : SizeOK sr ext d.length)
+    (hq : part <+: sr ++ ext ++ [13, 10] ++ d ++ [13, 10])
+    (hql : part.length < sr.length + ext.length + d.length + 4) (ht : Dead tailItems) :
+    let evs := (readsC flatSrc maxBuf ns (fresh (bytesI (encChunks cs ++ part) ++ tailItems))).1
+    (∀ i (hi : i < ns.length), 0 < ns[i] → evs[i]? ≠ some (.ok [])) ∧
+    (∀ e ∈ evs, e ≠ .panic) ∧
+    delivered evs <+: payloadOf cs ++ d ∧
+    (∀ i j, i ≤ j → j < evs.length → (∀ bs, evs[i]? ≠ some (.ok bs)) →
+      (∀ bs, evs[j]? ≠ some (.ok bs))) := by
+  have h : bytesI (encChunks cs ++ part) ++ tailItems =
+      bytesI (encChunks cs) ++ (bytesI part ++ tailItems) := by
+    simp [bytesI_append]
+  rw [h]
+  obtain ⟨h1, h2, h3⟩ := truncated_run tailItems ht maxBuf hmb sr ext d part hs hq hql ns _ _
+    (rep_fresh cs hwf (bytesI part ++ tailItems))
+  exact ⟨h1, chunked_no_panic [] maxBuf ns _ (Nat.le_refl _), h2, h3⟩
+
+/-- (C), the stream is cut strictly inside a chunk `c` (anywhere from before its first byte to
+    before its final LF). -/
+theorem chunked_truncated_in_chunk (cs : List ChunkS) (hwf : ∀ c ∈ cs, c.WF L) (part : Bytes)
+    (tailItems : List Item) (maxBuf : Nat) (hmb : 0 < maxBuf) (ns : List Nat)
+    (c : ChunkS) (hc : c.WF L) (hlen : part.length < c.enc.length) (hpre : part <+: c.enc)
+    (ht : tailItems = [] ∨ (∃ k r, k ≠ 0 ∧ tailItems = .err k :: r) ∨
+          (∃ r, tailItems = .pause :: r)) :
+    let evs := (readsC flatSrc maxBuf ns (fresh (bytesI (encChunks cs ++ part) ++ tailItems))).1
+    (∀ i (hi : i < ns.length), 0 < ns[i] → evs[i]? ≠ some (.ok [])) ∧
+    (∀ e ∈ evs, e ≠ .panic) ∧
+    delivered evs <+: payloadOf cs ++ c.data ∧
+    (∀ i j, i ≤ j → j < evs.length → (∀ bs, evs[i]? ≠ some (.ok bs)) →
+      (∀ bs, evs[j]? ≠ some (.ok bs))) :=
+  chunked_truncated_gen cs hwf part tailItems maxBuf hmb ns c.sizeRepr c.ext c.data
+    (SizeOK.of_chunk hc) hpre
+    (by simp only [ChunkS.enc, List.length_append, List.length_cons, List.length_nil] at hlen; omega)
+    ht
+
+/-- (C), the stream is cut strictly inside the last-chunk: only data of complete chunks shows. -/
+theorem chunked_truncated_in_last (cs : List ChunkS) (hwf : ∀ c ∈ cs, c.WF L) (part : Bytes)
+    (tailItems : List Item) (maxBuf : Nat) (hmb : 0 < maxBuf) (ns : List Nat)
+    (l : LastS) (hl : l.WF L) (hlen : part.length < l.enc.length) (hpre : part <+: l.enc)
+    (ht : tailItems = [] ∨ (∃ k r, k ≠ 0 ∧ tailItems = .err k :: r) ∨
+          (∃ r, tailItems = .pause :: r)) :
+    let evs := (readsC flatSrc maxBuf ns (fresh (bytesI (encChunks cs ++ part) ++ tailItems))).1
+    (∀ i (hi : i < ns.length), 0 < ns[i] → evs[i]? ≠ some (.ok [])) ∧
+    (∀ e ∈ evs, e ≠ .panic) ∧
+    delivered evs <+: payloadOf cs ∧
+    (∀ i j, i ≤ j → j < evs.length → (∀ bs, evs[i]? ≠ some (.ok bs)) →
+      (∀ bs, evs[j]? ≠ some (.ok bs))) := by
+  have henc : l.zeros ++ l.ext ++ [13, 10] ++ [] ++ [13, 10] = l.enc := by simp [LastS.enc]
+  have := chunked_truncated_gen cs hwf part tailItems maxBuf hmb ns l.zeros l.ext []
+    (SizeOK.of_last hl) (by rw [henc]; exact hpre)
+    (by simp only [LastS.enc, List.length_append, List.length_cons, List.length_nil] at hlen
+        simp only [List.length_nil]; omega)
+    ht
+  simpa using this
+
+/-- (C) as one statement: `d` is the data of the cut chunk, or empty for a cut last-chunk. -/
+theorem chunked_truncated (cs : List ChunkS) (hwf : ∀ c ∈ cs, c.WF L) (part : Bytes)
+    (tailItems : List Item) (maxBuf : Nat) (hmb : 0 < maxBuf) (ns : List Nat)
+    (hp : (∃ c : ChunkS, c.WF L ∧ part.length < c.enc.length ∧ part <+: c.enc) ∨
+          (∃ l : LastS, l.WF L ∧ part.length < l.enc.length ∧ part <+: l.enc))
+    (ht : tailItems = [] ∨ (∃ k r, k ≠ 0 ∧ tailItems = .err k :: r) ∨
+          (∃ r, tailItems = .pause :: r)) :
+    let evs := (readsC flatSrc maxBuf ns (fresh (bytesI (encChunks cs ++ part) ++ tailItems))).1
+    (∀ i (hi : i < ns.length), 0 < ns[i] → evs[i]? ≠ some (.ok [])) ∧
+    (∀ e ∈ evs, e ≠ .panic) ∧
+    (∃ d : Bytes,
+      ((∃ c : ChunkS, c.WF L ∧ part.length < c.enc.length ∧ part <+: c.enc ∧ d = c.data) ∨
+       (d = [] ∧ ∃ l : LastS, l.WF L ∧ part.length < l.enc.length ∧ part <+: l.enc)) ∧
+      delivered evs <+: payloadOf cs ++ d) ∧
+    (∀ i j, i ≤ j → j < evs.length → (∀ bs, evs[i]? ≠ some (.ok bs)) →
+      (∀ bs, evs[j]? ≠ some (.ok bs))) := by
+  rcases hp with ⟨c, hc, hlen, hpre⟩ | ⟨l, hl, hlen, hpre⟩
+  · obtain ⟨h1, h2, h3, h4⟩ :=
+      chunked_truncated_in_chunk cs hwf part tailItems maxBuf hmb ns c hc hlen hpre ht
+    exact ⟨h1, h2, ⟨c.data, .inl ⟨c, hc, hlen, hpre, rfl⟩, h3⟩, h4⟩
+  · obtain ⟨h1, h2, h3, h4⟩ :=
+      chunked_truncated_in_last cs hwf part tailItems maxBuf hmb ns l hl hlen hpre ht
+    exact ⟨h1, h2, ⟨[], .inr ⟨rfl, l, hl, hlen, hpre⟩, by simpa using h3⟩, h4⟩
+
 end Atto
